@@ -783,6 +783,12 @@ func (s *script) roundTrip(a int, rel int, disk bool, faults int) {
 			if r.Intn(3) == 0 {
 				s.do("boot", "", a) // refused: serialized
 			}
+			if faults > 0 && n <= 600 && r.Intn(16) == 0 {
+				// every proper prefix of a small file
+				for c := 0; c < n; c++ {
+					s.do("deser", "", a, a, c)
+				}
+			}
 			for k := 0; k < faults; k++ {
 				switch r.Intn(6) {
 				case 0:
@@ -917,6 +923,12 @@ func genBoundary(s *script, shape int, rel int, disk bool) {
 			}
 			for k := 0; k < 3; k++ {
 				cuts[r.Intn(len(file))] = true
+			}
+			if len(file) <= 4096 {
+				// small files (they all are here): EVERY proper prefix, not only the section boundaries
+				for c := 0; c < len(file); c++ {
+					cuts[c] = true
+				}
 			}
 			keys := []int{}
 			for c := range cuts {
